@@ -1477,7 +1477,10 @@ contract(
         "every-glyph-stored": f"implies({_HAS_GLYF} and probe in self.glyphOrder, probe in {_GT}.glyphs and {_GT}.glyphs[probe] == self._compiledGlyphs[probe])",
         # ... and nothing else is in the table
         "nothing-else": f"implies({_HAS_GLYF} and probe in {_GT}.glyphs, probe in self.glyphOrder)",
-        "cache-untouched": "self._compiledGlyphs == old(self._compiledGlyphs)",
+        # the cache maps the same names to the same record OBJECTS (identity: compileGlyphInstructions legitimately edits a record
+        # in place -- programs, USE_MY_METRICS flags -- so a deep comparison of the records would be wrong; it fired at run time
+        # with VERIF_SEED=2 on a composite whose component has the composite's advance)
+        "cache-untouched": "set(self._compiledGlyphs) == set(old(self._compiledGlyphs)) and all(self._compiledGlyphs[n] is old(self._compiledGlyphs)[n] for n in self._compiledGlyphs)",
     },
     # the same for EVERY name, and the depth order of insertion, evaluated natively on real compilers
     bounded_ensures={
